@@ -23,6 +23,11 @@ def cases(tier, seed):
         out.append(dict(src=s, family="expressions-as-parameters"))
     for s in gen.cast_use_cases():
         out.append(dict(src=s, family="converted-values-as-indices-and-parameters"))
+    # programs with a checked error: they are rejected; whatever unroll() accepts nevertheless must still be flat,
+    # re-loadable and a fixpoint (the clauses hold of every output, not only of the outputs of valid programs)
+    for cls, ctx, src in gen.error_cases():
+        if ctx in ("top", "for-first") or (tier != "quick" and ctx in ("if-true", "sub-body", "switch-case")):
+            out.append(dict(src=src, family="rejected-programs"))
     return out
 
 
